@@ -425,6 +425,10 @@ func layerGoString(i interface{}, b *bytes.Buffer) {
 	}
 	switch v.Kind() {
 	case reflect.Ptr, reflect.Interface:
+		if v.IsNil() {
+			b.WriteString("nil")
+			return
+		}
 		if v.Kind() == reflect.Ptr {
 			b.WriteByte('&')
 		}
